@@ -38,6 +38,61 @@ def survive_cases(rng, tier):
     return cs
 
 
+def conn_cases(rng, tier):
+    """one connection of the many, on a scripted transport: its pipelined requests arrive cut at EVERY byte offset (what concurrent
+    traffic does to segmentation), and its transport accepts the replies in pieces, with pauses, or fails with any error kind
+    (also the transient-looking ones).  The bytes written must be this connection's replies in request order -- all of them
+    when nothing failed, a prefix when a write failed; never a reply twice, never one skipped"""
+    from p_c07 import gen_pipeline, svc_tok, expected_trace
+    cs = []
+    for proto in ("tcp", "rtu"):
+        for _ in range(8 if tier == "quick" else 80):
+            k = rng.choice([2, 3, 4])
+            frames, hdrs, reqs, svc = gen_pipeline(rng, proto, k)
+            stream = b"".join(frames)
+            if len(stream) > 100:
+                continue
+            exp = expected_trace(proto, hdrs, reqs, svc)
+            replies = "".join(e[2:] for e in exp if e.startswith("W:"))
+            svctok = ",".join(svc_tok(e) for e in svc)
+            for off in range(1, len(stream)):
+                cs.append(Case("SRV %s %s - - %s" % (proto, mb.rscript([stream[:off], stream[off:]]), svctok),
+                               {"k": "pipe", "proto": proto, "replies": replies, "full": True, "off": off}))
+            total = len(replies) // 2
+            for _ in range(12):
+                if total == 0:
+                    break
+                off = rng.randrange(total)
+                fault = "e:" + rng.choice(cligen.KINDS)
+                pre, left = [], off
+                while left > 0:
+                    nacc = rng.randrange(1, left + 1)
+                    pre.append("a%d" % nacc)
+                    left -= nacc
+                if rng.random() < 0.3:
+                    pre = [x for e in pre for x in (e, "p")]
+                F = rng.choice(["-", "-", "ok", "e:Interrupted"])
+                cs.append(Case("SRV %s %s %s %s %s" % (proto, mb.rscript(mb.chunkings(stream, rng, 1)[0]), ",".join(pre + [fault]), F, svctok),
+                               {"k": "pipe", "proto": proto, "replies": replies, "full": False, "off": off, "fault": fault}))
+            for kind in rng.sample(cligen.KINDS, 3):
+                cs.append(Case("SRV %s %s - e:%s %s" % (proto, mb.rscript([stream]), kind, svctok),
+                               {"k": "pipe", "proto": proto, "replies": replies, "full": False, "off": -1, "fault": "flush e:" + kind}))
+    return cs
+
+
+def conn_oracle(c):
+    tr = (c.impl or "").split(",")
+    written = "".join(t[2:] for t in tr if t.startswith("W:"))
+    want = c.meta["replies"]
+    if c.meta["full"]:
+        if written != want:
+            return "requests cut into two segments at offset %d: the connection received %s, its replies in request order are %s" % (c.meta["off"], written[:100], want[:100])
+        return None
+    if not want.startswith(written):
+        return "transport fault %s while replying: the connection received %s, not a prefix of its replies in request order %s" % (c.meta["fault"], written[:100], want[:100])
+    return None
+
+
 def survive_oracle(c):
     r = c.impl or ""
     if r == c.meta["want"]:
@@ -55,7 +110,7 @@ class PROP(Prop):
             "runtime (2..8 workers); every connection pipelines 1..12 requests tagged (connection, sequence) with random pacing (0..300 us); the "
             "service answers by a fixed rule (echo / computed registers / no reply / exception).  Oracle: the bytes each client received are exactly "
             "the spec replies to its own requests in its own order; the service factory was invoked once per connection with that connection's "
-            "peer address (runs over the IPv4 and the IPv6 loopback; accept_tcp_connection also probed directly with IPv4, IPv6, mapped, compatible, scoped addresses).  Each connection's byte stream is also run through the model (SRV) and compared.  Connections established before another connection's setup fails or is rejected send a further request afterwards and must still be answered (SURVIVE).  non-trivial = run with >= 2 connections")
+            "peer address (runs over the IPv4 and the IPv6 loopback; accept_tcp_connection also probed directly with IPv4, IPv6, mapped, compatible, scoped addresses).  Each connection's byte stream is also run through the model (SRV) and compared.  Connections established before another connection's setup fails or is rejected send a further request afterwards and must still be answered (SURVIVE).  Some connections send their pipelined requests in segments that end 1..7 bytes inside the next frame; one connection of the many is also run on a scripted transport with its request stream cut at EVERY offset and with write / flush faults of every error kind (what it receives is its replies in request order, or a prefix of them).  non-trivial = run with >= 2 connections")
 
     def cases(self, rng, tier):
         cs = []
@@ -88,6 +143,19 @@ class PROP(Prop):
                             delay = 1500000         # 1.5 s of silence after connecting
                         plan.append("%d:%s" % (delay, fr.hex()))
                         reqs.append((tid if proto == "tcp" else 0, uid, req))
+                    if ci not in idle and rng.random() < 0.4 and len(plan) >= 2:
+                        # TCP is a byte stream: the same requests cut into segments that do NOT end on frame boundaries (often a
+                        # frame plus the first 1..3 bytes of the next one); a pause of >= 1 ms makes each piece its own segment
+                        data = b"".join(mb.unhex(e.split(":")[1]) for e in plan)
+                        ends, pos = [], 0
+                        for e in plan[:-1]:
+                            pos += len(e.split(":")[1]) // 2
+                            ends.append(min(len(data) - 1, pos + rng.choice([1, 2, 3, 1, 2, 3, 4, 7, -1, -2])))
+                        cuts = sorted(set(x for x in ends if 0 < x < len(data)))
+                        plan, prev = [], 0
+                        for cpos in cuts + [len(data)]:
+                            plan.append("%d:%s" % (0 if prev == 0 else rng.choice([50, 300, 2000]), data[prev:cpos].hex()))
+                            prev = cpos
                     conns.append(",".join(plan))
                     metas.append(reqs)
                 flav = proto + ("6" if rng.random() < 0.4 else "")      # some runs over the IPv6 loopback
@@ -113,6 +181,7 @@ class PROP(Prop):
                 bad = (b"\x00\x01\x00\x01\x00\x02\x01\x11" if proto == "tcp" else bytes([0x00, 0x80] * 13)).hex()
                 cs.append(Case("ACCEPT %s %s %s %s" % (proto, good, bad, ",".join(evs + ["a"])), {"k": "accept", "proto": proto, "evs": evs}))
         cs += survive_cases(rng, tier)
+        cs += conn_cases(rng, tier)
         # spread the slow concurrent runs evenly over the shards
         conc = [c for c in cs if c.meta["k"] == "conc"]
         rest = [c for c in cs if c.meta["k"] != "conc"]
@@ -160,6 +229,8 @@ class PROP(Prop):
             return None if r.startswith("served=%d " % want) and r.endswith(" ABORTED") else "accept loop: %s; %d connections must each get a service instance (events %s)" % (r[:60], want, ",".join(c.meta["evs"]))
         if c.meta["k"] == "survive":
             return survive_oracle(c)
+        if c.meta["k"] == "pipe":
+            return conn_oracle(c)
         if c.meta["k"] == "accaddr":
             return None if r.endswith(" n=1 same=1") else "accept_tcp_connection did not create the service with the peer's address exactly once: %s" % r[:80]
         if c.meta["k"] == "srv":
@@ -194,4 +265,4 @@ class PROP(Prop):
         return None
 
     def nontrivial(self, c):
-        return c.meta["k"] == "conc"
+        return c.meta["k"] in ("conc", "pipe")
